@@ -129,6 +129,14 @@ func init() {
 				steps = append(steps, s)
 			case 1:
 				s := st("par_push", c, 0, "redirect", req, "scope", pickScopes(t, 20, 40))
+				if t.Chance(45) {
+					// the pushed-authorization endpoint applies the secure-redirect rule to every response type, not only to "code"
+					s.P["rt"] = t.Pick([]string{"token", "code id_token", "id_token token", "code token", "id_token", "code id_token token"})
+					s.P["nonce"] = fmt.Sprintf("nonce-%d-abcdefgh", len(steps))
+					if strings.Contains(s.P["rt"], "id_token") {
+						s.P["scope"] = "openid " + s.P["scope"]
+					}
+				}
 				if t.Chance(30) {
 					s.P["mode"] = t.Pick([]string{"query", "fragment", "form_post"})
 				}
@@ -283,7 +291,15 @@ func init() {
 			case 5:
 				steps = append(steps, st("password", c, 0, "scope", sc, "aud", au))
 			case 6:
-				steps = append(steps, st("device_authz", c, 0, "scope", sc, "aud", au), Step{Op: "device_decide", G: 60, V: "accept"}, Step{Op: "device_token", C: -1, G: 60})
+				dec := Step{Op: "device_decide", V: "accept", P: map[string]string{"latest": "1"}}
+				if t.Chance(45) { // the resource owner consents to a part of the requested scopes / audiences only
+					dec.P["grant_first"] = fmt.Sprint(t.Intn(3))
+					dec.P["aud_first"] = fmt.Sprint(t.Intn(3))
+				}
+				steps = append(steps, st("device_authz", c, 0, "scope", sc, "aud", au), dec, Step{Op: "device_token", C: -1, P: map[string]string{"latest": "1"}})
+				if t.Chance(40) {
+					steps = append(steps, Step{Op: "refresh", C: -1, V: "latest"})
+				}
 			case 7:
 				steps = append(steps, st("par_push", c, 0, "scope", sc, "aud", au), Step{Op: "authz_par", C: -1, G: 60})
 			case 8:
@@ -398,7 +414,7 @@ func init() {
 		}
 		return &Plan{Profile: "c13", Prop: "C13", K: k, Steps: steps}
 	}})
-	regProp(&PropSpec{ID: "C13", Profiles: []string{"c13"}, Characteristic: []string{"authz-redirect:", "authz-direct-error", "request-object:"}})
+	regProp(&PropSpec{ID: "C13", Profiles: []string{"c13", "c13", "c13par"}, Characteristic: []string{"authz-redirect:", "authz-direct-error", "request-object:"}})
 }
 
 // requestObject builds the OIDC request object for an authz step; returns the compact JWT, the state it carries and the verdict.
